@@ -8,6 +8,7 @@ import (
 	"path/filepath"
 	"runtime"
 	"runtime/debug"
+	"sort"
 	"strings"
 	"sync/atomic"
 	"testing"
@@ -18,7 +19,6 @@ import (
 )
 
 var (
-	curT     *testing.T
 	curCase  atomic.Pointer[Case]
 	runStart atomic.Int64
 )
@@ -171,6 +171,9 @@ func TestWorker(t *testing.T) {
 			for _, t := range out.Trace {
 				fmt.Println(t)
 			}
+			for _, v := range out.Viol {
+				fmt.Println("ALL-VIOLATIONS:", v.String())
+			}
 		}
 		for _, v := range out.Viol {
 			if v.Prop == c.Prop {
@@ -241,6 +244,12 @@ func TestWorker(t *testing.T) {
 			c := eng.Gen(sp.Prop, sp.Tier, ts)
 			out := safeRun(eng, c, dir)
 			res.Runs++
+			if os.Getenv("VERIF_DIGEST") != "" {
+				if res.Digests == nil {
+					res.Digests = map[string]uint64{}
+				}
+				res.Digests[fmt.Sprint(run)] = digest(out)
+			}
 			res.Evals += out.Evals
 			res.SimTimeNS += out.SimTimeNS
 			res.Decisions += out.Decisions
@@ -388,4 +397,33 @@ func shrinkHang(e Engine, c *Case, sp *Spec, dir string) (*Case, int) {
 		}
 	}
 	return best, used
+}
+
+// digest folds everything a run observed into one number.
+func digest(o *Outcome) uint64 {
+	h := mixHash(uint64(o.Evals), uint64(o.Decisions), uint64(len(o.Viol)), uint64(len(o.Distinct)))
+	for _, d := range o.Distinct {
+		h = mixHash(h, d)
+	}
+	for _, d := range o.Interleaved {
+		h = mixHash(h, d)
+	}
+	keys := make([]string, 0, len(o.Probes)+len(o.Faults))
+	for k, v := range o.Probes {
+		keys = append(keys, fmt.Sprintf("p:%s=%d", k, v))
+	}
+	for k, v := range o.Faults {
+		keys = append(keys, fmt.Sprintf("f:%s=%d", k, v))
+	}
+	sort.Strings(keys)
+	for _, k := range keys {
+		h = mixHash(h, hashStr(k))
+	}
+	for _, v := range o.Viol {
+		h = mixHash(h, hashStr(v.Prop+v.Class+v.Msg))
+	}
+	if o.HarnessErr != "" {
+		h = mixHash(h, hashStr(o.HarnessErr))
+	}
+	return h
 }
